@@ -1,6 +1,10 @@
 import GraafVerif.Proof.ComposeHist
 import GraafVerif.Proof.ComposeGen
 import GraafVerif.Proof.ComposeDriver
+import GraafVerif.Proof.ComposeDriverAM
+import GraafVerif.Proof.ComposeDriverSparse
+import GraafVerif.Proof.ComposeOpsRes
+import GraafVerif.Proof.ComposeCtor
 /-!
 # Compose — representation × (history | generator | conversion) × algorithm, end to end
 
@@ -22,6 +26,10 @@ C16 are about the five representation models.  This file composes them:
    the final SPEC state of C01 (`SpecState`: a plain set of arcs, no containers).
 4. generators / conversions — every traversal property w.r.t. the defining arc set of a
    generator; the `circuit(n)` sanity family; a conversion result has the same view as its source.
+6. … 11. (second round) — the C11 operations (`complement`, `converse`, `union`,
+   `filter_vertices`), the `From<rows>` / `From<arcs>` constructors, the random generators of C15,
+   sparse `[am …]` descriptions, the preorder clause of C06 over the bare relation, and the
+   repeated-call theorems, all under the views; see the section headers below.
 5. `driver_graph_is_view` — the `Graph` / `WGraph` the driver hands to the algorithm models in the
    correspondence run (`GDesc.graph` / `GDesc.wgraph`, built from the case DESCRIPTION) is EQUAL to
    the view of the representation model built from that description the way the harness builds
@@ -529,6 +537,328 @@ theorem driver_vgraph_is_vview_fixed (d : Driver.GDesc) (hn : 1 ≤ d.order) (hr
     (d.order * d.order < 2 ^ 64 → ∃ r, Driver.buildMX d = some r ∧ r.WF ∧ r.vview = Driver.H09.vgraphOf d) :=
   driver_vgraph_is_vview d hn hrepr hverts hv
 
+/-! ## 6. The C11 operations under the algorithms
+
+`ViewIs g vg n P` (`Proof/ComposeOps.lean`): the positional view `g` and the vertex-id view `vg`
+ARE the digraph with vertex set `0..n` and arc relation `P` (rows ascending).  `complRel`,
+`convRel`, `unionRel`, `filterRel` are the set definitions of the operations on bare relations.
+`AlgorithmsHold g vg n P` = C04, C05-BFS, C06 (incl. the relational preorder clauses), C09 (every
+call), C10 (every call) w.r.t. `P`. -/
+
+/-- A view that IS `(n, P)` satisfies every algorithm property w.r.t. `P`. -/
+theorem viewIs_algorithms {g : Graph} {vg : Tarjan.VGraph} {n : Nat} {P : Rel} (h : ViewIs g vg n P) :
+    AlgorithmsHold g vg n P := h.algorithms
+
+/-- Every well-formed value `ViewIs` its own arc relation `(u, v) ∈ arcs()`. -/
+theorem viewIs_self :
+    (∀ d : AdjList, d.WF → ViewIs d.view d.vview d.order d.Arc) ∧
+    (∀ d : AdjMap, d.WF → Gen.AM.Contiguous d → ViewIs d.view d.vview d.order d.Arc) ∧
+    (∀ d : AdjMatrix, d.WF → ViewIs d.view d.vview d.order d.Arc) ∧
+    (∀ d : EdgeList, d.WF → ViewIs d.view d.vview d.order d.Arc) ∧
+    (∀ d : AdjListW, d.WF → ViewIs d.view d.vview d.order d.Arc) :=
+  ⟨AdjList.viewIs, AdjMap.viewIs, AdjMatrix.viewIs, EdgeList.viewIs, AdjListW.viewIs⟩
+
+/-- `AdjacencyList` (every thread count `ap ≥ 1`): `complement`, `converse`, `union` return a
+well-formed list whose view is the set definition applied to the operands' `arcs()`. -/
+theorem adjList_ops_views :
+    (∀ (d : AdjList) (ap : Nat), d.WF → 0 < ap → ∃ r, Ops.complementAL d ap = some r ∧ r.WF ∧ r.order = d.order ∧
+      ViewIs r.view r.vview d.order (complRel d.order d.Arc)) ∧
+    (∀ d : AdjList, d.WF → ∃ r, Ops.converseAL d = some r ∧ r.WF ∧ r.order = d.order ∧
+      ViewIs r.view r.vview d.order (convRel d.Arc)) ∧
+    (∀ (a b : AdjList) (ap : Nat), a.WF → b.WF → 0 < ap → ∃ r, Ops.unionAL a b ap = some r ∧ r.WF ∧
+      r.order = max a.order b.order ∧ ViewIs r.view r.vview (max a.order b.order) (unionRel a.Arc b.Arc)) :=
+  ⟨fun d ap h hap => AL.complement_viewIs d h ap hap, fun d h => AL.converse_viewIs d h,
+   fun a b ap ha hb hap => AL.union_viewIs a b ha hb ap hap⟩
+
+/-- `AdjacencyMatrix` (`order²` fits a `usize`). -/
+theorem adjMatrix_ops_views :
+    (∀ d : AdjMatrix, d.WF → d.order * d.order < 2 ^ 64 → ∃ r, Ops.complementMX d = some r ∧ r.WF ∧
+      r.order = d.order ∧ ViewIs r.view r.vview d.order (complRel d.order d.Arc)) ∧
+    (∀ d : AdjMatrix, d.WF → d.order * d.order < 2 ^ 64 → ∃ r, Ops.converseMX d = some r ∧ r.WF ∧
+      r.order = d.order ∧ ViewIs r.view r.vview d.order (convRel d.Arc)) ∧
+    (∀ a b : AdjMatrix, a.WF → b.WF → a.order * a.order < 2 ^ 64 → b.order * b.order < 2 ^ 64 →
+      ∃ r, Ops.unionMX a b = some r ∧ r.WF ∧ r.order = max a.order b.order ∧
+        ViewIs r.view r.vview (max a.order b.order) (unionRel a.Arc b.Arc)) :=
+  ⟨fun d h hf => MX.complement_viewIs d h hf, fun d h hf => MX.converse_viewIs d h hf,
+   fun a b ha hb hfa hfb => MX.union_viewIs a b ha hb hfa hfb⟩
+
+/-- `EdgeList`. -/
+theorem edgeList_ops_views :
+    (∀ d : EdgeList, d.WF → (Ops.complementEL d).WF ∧ (Ops.complementEL d).order = d.order ∧
+      ViewIs (Ops.complementEL d).view (Ops.complementEL d).vview d.order (complRel d.order d.Arc)) ∧
+    (∀ d : EdgeList, d.WF → (Ops.converseEL d).WF ∧ (Ops.converseEL d).order = d.order ∧
+      ViewIs (Ops.converseEL d).view (Ops.converseEL d).vview d.order (convRel d.Arc)) ∧
+    (∀ a b : EdgeList, a.WF → b.WF → ∃ r, Ops.unionEL a b = some r ∧ r.WF ∧ r.order = max a.order b.order ∧
+      ViewIs r.view r.vview (max a.order b.order) (unionRel a.Arc b.Arc)) :=
+  ⟨fun d h => EL.complement_viewIs d h, fun d h => EL.converse_viewIs d h,
+   fun a b ha hb => EL.union_viewIs a b ha hb⟩
+
+/-- `AdjacencyMap` with key sets `0..order` (positional view; `union` for every thread count);
+the results are again contiguous. -/
+theorem adjMap_ops_views :
+    (∀ d : AdjMap, d.WF → Gen.AM.Contiguous d → 0 < d.order →
+      (Ops.complementAM d).WF ∧ (Ops.complementAM d).order = d.order ∧ Gen.AM.Contiguous (Ops.complementAM d) ∧
+      ViewIs (Ops.complementAM d).view (Ops.complementAM d).vview d.order (complRel d.order d.Arc)) ∧
+    (∀ d : AdjMap, d.WF → Gen.AM.Contiguous d → 0 < d.order →
+      (Ops.converseAM d).WF ∧ (Ops.converseAM d).order = d.order ∧ Gen.AM.Contiguous (Ops.converseAM d) ∧
+      ViewIs (Ops.converseAM d).view (Ops.converseAM d).vview d.order (convRel d.Arc)) ∧
+    (∀ (a b : AdjMap) (ap : Nat), a.WF → b.WF → Gen.AM.Contiguous a → Gen.AM.Contiguous b → 0 < a.order →
+      0 < b.order → 0 < ap → ∃ r, Ops.unionAM a b ap = some r ∧ r.WF ∧ r.order = max a.order b.order ∧
+        Gen.AM.Contiguous r ∧ ViewIs r.view r.vview (max a.order b.order) (unionRel a.Arc b.Arc)) :=
+  ⟨fun d h hc hn => AM.complement_viewIs d h hc hn, fun d h hc hn => AM.converse_viewIs d h hc hn,
+   fun a b ap ha hb hca hcb hna hnb hap => AM.union_viewIs a b ha hb hca hcb hna hnb ap hap⟩
+
+/-- `AdjacencyMap` with ARBITRARY key sets, all four operations incl. `filter_vertices`: vertex
+set and arc set of the result are the set definitions, and Tarjan on the result returns the
+strongly connected components of that digraph. -/
+theorem adjMap_ops_tarjan :
+    (∀ d : AdjMap, d.WF → 0 < d.order →
+      (Ops.complementAM d).WF ∧ (∀ x, x ∈ (Ops.complementAM d).vertices ↔ x ∈ d.vertices) ∧
+      (∀ u v, (Ops.complementAM d).Arc u v ↔ (u ∈ d.vertices ∧ v ∈ d.vertices ∧ u ≠ v ∧ ¬ d.Arc u v)) ∧
+      TarjanHolds (Ops.complementAM d).vertices
+        (fun u v => u ∈ d.vertices ∧ v ∈ d.vertices ∧ u ≠ v ∧ ¬ d.Arc u v) (Ops.complementAM d).vview) ∧
+    (∀ d : AdjMap, d.WF → 0 < d.order →
+      (Ops.converseAM d).WF ∧ (∀ x, x ∈ (Ops.converseAM d).vertices ↔ x ∈ d.vertices) ∧
+      (∀ u v, (Ops.converseAM d).Arc u v ↔ d.Arc v u) ∧
+      TarjanHolds (Ops.converseAM d).vertices (convRel d.Arc) (Ops.converseAM d).vview) ∧
+    (∀ (a b : AdjMap) (ap : Nat), a.WF → b.WF → 0 < a.order → 0 < b.order → 0 < ap →
+      ∃ r, Ops.unionAM a b ap = some r ∧ r.WF ∧ (∀ x, x ∈ r.vertices ↔ x ∈ a.vertices ∨ x ∈ b.vertices) ∧
+        (∀ u v, r.Arc u v ↔ a.Arc u v ∨ b.Arc u v) ∧ TarjanHolds r.vertices (unionRel a.Arc b.Arc) r.vview) ∧
+    (∀ (d : AdjMap) (p : Nat → Bool), d.WF →
+      (Ops.filterAM d p).WF ∧ (∀ x, x ∈ (Ops.filterAM d p).vertices ↔ x ∈ d.vertices ∧ p x = true) ∧
+      (∀ u v, (Ops.filterAM d p).Arc u v ↔ filterRel p d.Arc u v) ∧
+      TarjanHolds (Ops.filterAM d p).vertices (filterRel p d.Arc) (Ops.filterAM d p).vview) :=
+  ⟨fun d h hn => AM.complement_tarjan d h hn, fun d h hn => AM.converse_tarjan d h hn,
+   fun a b ap ha hb hna hnb hap => AM.union_tarjan a b ha hb hna hnb ap hap,
+   fun d p h => AM.filter_tarjan d h p⟩
+
+/-- `AdjacencyListWeighted::converse`: the weights are carried over, so every weighted algorithm
+on the result is correct w.r.t. the reversed weighted arc set. -/
+theorem adjListW_converse_weighted (d : AdjListW) (h : d.WF) :
+    ∃ r, Ops.converseW d = some r ∧ r.WF ∧ r.order = d.order ∧ (∀ u v w, r.WArc u v w ↔ d.WArc v u w) ∧
+      WeightedHold (fun u v w => d.WArc v u w) d.order r.wview := WL.converse_weighted d h
+
+/-- Whatever two views are related by `converse`: reachability is reversed, and Tarjan returns
+the SAME blocks on both (strongly connected components are invariant under converse; only the
+emission order may differ). -/
+theorem converse_reach_and_sccs {g g' : Graph} {vg vg' : Tarjan.VGraph} {n : Nat} {A : Rel}
+    (h : ViewIs g vg n A) (h' : ViewIs g' vg' n (convRel A)) :
+    (∀ u v, Reach g' u v ↔ Reach g v u) ∧
+    (∃ cs cs', Tarjan.components vg = .ret cs ∧ Tarjan.components vg' = .ret cs' ∧ ∀ c, c ∈ cs ↔ c ∈ cs') :=
+  converse_corollaries h h'
+
+/-- … instantiated: `AdjacencyList::converse`. -/
+theorem adjList_converse_reach_sccs (d : AdjList) (h : d.WF) :
+    ∃ r, Ops.converseAL d = some r ∧ (∀ u v, Reach r.view u v ↔ Reach d.view v u) ∧
+      ∃ cs cs', Tarjan.components d.vview = .ret cs ∧ Tarjan.components r.vview = .ret cs' ∧
+        ∀ c, c ∈ cs ↔ c ∈ cs' := by
+  obtain ⟨r, e, _, _, hv⟩ := AL.converse_viewIs d h
+  obtain ⟨h1, h2⟩ := converse_corollaries (AdjList.viewIs d h) hv
+  exact ⟨r, e, h1, h2⟩
+
+/-- BFS on the complement, spelled out: exactly the vertices reachable through NON-arcs. -/
+theorem adjList_bfs_on_complement (d : AdjList) (h : d.WF) (ap : Nat) (hap : 0 < ap) (S : List Nat)
+    (hS : ∀ s ∈ S, s < d.order) (hnd : S.Nodup) :
+    ∃ r, Ops.complementAL d ap = some r ∧ BfsHolds (complRel d.order d.Arc) d.order S r.view := by
+  obtain ⟨r, e, _, _, hv⟩ := AL.complement_viewIs d h ap hap
+  exact ⟨r, e, (hv.traversals S hS hnd).bfs⟩
+
+/-- `complement(complement(d))` and `converse(converse(d))` have the views of `d` (whatever the
+representation: stated for any views with those relations). -/
+theorem double_op_views {g g'' : Graph} {vg vg'' : Tarjan.VGraph} {n : Nat} {A : Rel} (h : ViewIs g vg n A) :
+    (ViewIs g'' vg'' n (complRel n (complRel n A)) → g'' = g ∧ vg'' = vg) ∧
+    (ViewIs g'' vg'' n (convRel (convRel A)) → g'' = g ∧ vg'' = vg) :=
+  ⟨viewIs_compl_compl h, viewIs_conv_conv h⟩
+
+/-! ## 7. `From<rows>` / `From<arcs>` (C16 (c), (d)) -/
+
+/-- `From<Vec<BTreeSet>>` / `From<Vec<BTreeMap>>`: for valid sorted rows the constructor returns a
+well-formed value whose view has LITERALLY the given rows. -/
+theorem from_rows_views :
+    (∀ rows : List (List Nat), Conv.RowsValid rows → (∀ r ∈ rows, SortedS r) →
+      Conv.AL.fromRows rows = some ⟨rows⟩ ∧ AdjList.WF ⟨rows⟩ ∧
+      (∀ u, (⟨rows⟩ : AdjList).view.out u = rows[u]?.getD []) ∧
+      ViewIs (⟨rows⟩ : AdjList).view (⟨rows⟩ : AdjList).vview rows.length (rowsRel rows)) ∧
+    (∀ rows : List (List Nat), Conv.RowsValid rows → (∀ r ∈ rows, SortedS r) →
+      Conv.AM.fromRows rows = some ⟨Conv.enumRows rows⟩ ∧ AdjMap.WF ⟨Conv.enumRows rows⟩ ∧
+      Gen.AM.Contiguous ⟨Conv.enumRows rows⟩ ∧
+      (∀ u, (⟨Conv.enumRows rows⟩ : AdjMap).view.out u = rows[u]?.getD []) ∧
+      ViewIs (⟨Conv.enumRows rows⟩ : AdjMap).view (⟨Conv.enumRows rows⟩ : AdjMap).vview rows.length (rowsRel rows)) ∧
+    (∀ rows : List (List (Nat × Int)), Conv.RowsValidW rows → (∀ r ∈ rows, SortedK r) →
+      Conv.WL.fromRows rows = some ⟨rows⟩ ∧ AdjListW.WF ⟨rows⟩ ∧
+      (∀ u, (⟨rows⟩ : AdjListW).wview.out u = rows[u]?.getD []) ∧
+      WeightedHold (wrowsRel rows) rows.length (⟨rows⟩ : AdjListW).wview ∧
+      ViewIs (⟨rows⟩ : AdjListW).view (⟨rows⟩ : AdjListW).vview rows.length (⟨rows⟩ : AdjListW).Arc) :=
+  ⟨AL.fromRows_viewIs, AM.fromRows_viewIs, WL.fromRows_weighted⟩
+
+/-- `From<IntoIterator<Item = (usize, usize)>>`: order `max id + 1`, arcs = the given pairs. -/
+theorem from_arcs_views :
+    (∀ arcs : List (Nat × Nat), arcs ≠ [] → (∀ a ∈ arcs, a.1 ≠ a.2) → C16.Fits (Conv.maxId arcs + 1) →
+      ∃ d, Conv.MX.fromArcs arcs = some d ∧ d.WF ∧ d.order = Conv.maxId arcs + 1 ∧
+        ViewIs d.view d.vview (Conv.maxId arcs + 1) (listRel arcs)) ∧
+    (∀ arcs : List (Nat × Nat), (∀ a ∈ arcs, a.1 ≠ a.2) →
+      ∃ d, Conv.EL.fromArcs arcs = some d ∧ d.WF ∧ d.order = Conv.maxId arcs + 1 ∧
+        ViewIs d.view d.vview (Conv.maxId arcs + 1) (listRel arcs)) :=
+  ⟨MX.fromArcs_viewIs, EL.fromArcs_viewIs⟩
+
+/-! ## 8. Random generators (C15)
+
+C15 proves validity on the observable `View` and not the representation invariant; the traversal
+theorems only need the view to be a well-formed `Graph` with arc relation `has_arc`, which follows
+from `IsSimpleOn` (`…viewHas_of_simpleOn`).  `RandomOK g vg n has` = for all distinct in-range
+sources `TraversalsHold (has · · = true) n S g`, and `TarjanHolds (0..n) (has · · = true) vg`. -/
+
+/-- For EVERY stream (seed, PRNG), every order, every thread count: the generated digraph is valid
+(C15) and all traversal theorems and Tarjan apply to its view, w.r.t. its `has_arc` relation —
+which is a tournament / recursive tree / simple digraph by the first conjunct. -/
+theorem random_generators_algorithms :
+    (∀ (s : Rand.Stream) (n : Nat), 1 ≤ n →
+      (∃ g, Rand.tournamentAL s n = some g ∧ Rand.IsTournament n (Rand.viewAL g) ∧ RandomOK g.view g.vview n g.hasArc) ∧
+      (Rand.FitsMatrix n → ∃ g, Rand.tournamentMX s n = some g ∧ Rand.IsTournament n (Rand.viewMX g) ∧
+        RandomOK g.view g.vview n g.hasArc) ∧
+      (∃ g, Rand.tournamentEL s n = some g ∧ Rand.IsTournament n (Rand.viewEL g) ∧ RandomOK g.view g.vview n g.hasArc)) ∧
+    (∀ (streams : Nat → Rand.Stream) (n t : Nat), 1 ≤ n → 1 ≤ t →
+      ∃ g, Rand.tournamentAM streams n t = some g ∧ Rand.IsTournament n (Rand.viewAM g) ∧
+        RandomOK g.view g.vview n g.hasArc) ∧
+    (∀ (s : Rand.Stream) (n : Nat), 1 ≤ n →
+      (∃ g, Rand.rrtAL s n = some g ∧ Rand.IsRecursiveTree n (Rand.viewAL g) ∧ RandomOK g.view g.vview n g.hasArc) ∧
+      (∃ g, Rand.rrtAM s n = some g ∧ Rand.IsRecursiveTree n (Rand.viewAM g) ∧ RandomOK g.view g.vview n g.hasArc) ∧
+      (Rand.FitsMatrix n → ∃ g, Rand.rrtMX s n = some g ∧ Rand.IsRecursiveTree n (Rand.viewMX g) ∧
+        RandomOK g.view g.vview n g.hasArc) ∧
+      (∃ g, Rand.rrtEL s n = some g ∧ Rand.IsRecursiveTree n (Rand.viewEL g) ∧ RandomOK g.view g.vview n g.hasArc)) ∧
+    (∀ (s : Rand.Stream) (n : Nat) (p : Rand.F64), 1 ≤ n → p.inUnit = true →
+      (∃ g, Rand.erAL s n p = some g ∧ Rand.ErValid n p (Rand.viewAL g) ∧ RandomOK g.view g.vview n g.hasArc) ∧
+      (Rand.FitsMatrix n → ∃ g, Rand.erMX s n p = some g ∧ Rand.ErValid n p (Rand.viewMX g) ∧
+        RandomOK g.view g.vview n g.hasArc) ∧
+      (∃ g, Rand.erEL s n p = some g ∧ Rand.ErValid n p (Rand.viewEL g) ∧ RandomOK g.view g.vview n g.hasArc)) ∧
+    (∀ (streams : Nat → Rand.Stream) (n t : Nat) (p : Rand.F64), 1 ≤ n → 1 ≤ t → p.inUnit = true →
+      ∃ g, Rand.erAM streams n t p = some g ∧ Rand.ErValid n p (Rand.viewAM g) ∧
+        RandomOK g.view g.vview n g.hasArc) := by
+  refine ⟨fun s n hn => ⟨?_, fun hf => ?_, ?_⟩, fun st n t hn ht => ?_, fun s n hn => ⟨?_, ?_, fun hf => ?_, ?_⟩,
+    fun s n p hn hp => ⟨?_, fun hf => ?_, ?_⟩, fun st n t p hn ht hp => ?_⟩
+  · obtain ⟨g, e, v⟩ := C15.tournament_valid_al s n hn
+    exact ⟨g, e, v, (AL.viewHas_of_simpleOn g n v.1).randomOK⟩
+  · obtain ⟨g, e, v⟩ := C15.tournament_valid_mx s n hn hf
+    exact ⟨g, e, v, (MX.viewHas_of_simpleOn g n v.1).randomOK⟩
+  · obtain ⟨g, e, v⟩ := C15.tournament_valid_el s n hn
+    exact ⟨g, e, v, (EL.viewHas_of_simpleOn g n v.1).randomOK⟩
+  · obtain ⟨g, e, v⟩ := C15.tournament_valid_am st n t hn ht
+    exact ⟨g, e, v, (AM.viewHas_of_simpleOn g n v.1).randomOK⟩
+  · obtain ⟨g, e, v⟩ := C15.rrt_valid_al s n hn
+    exact ⟨g, e, v, (AL.viewHas_of_simpleOn g n v.1).randomOK⟩
+  · obtain ⟨g, e, v⟩ := C15.rrt_valid_am s n hn
+    exact ⟨g, e, v, (AM.viewHas_of_simpleOn g n v.1).randomOK⟩
+  · obtain ⟨g, e, v⟩ := C15.rrt_valid_mx s n hn hf
+    exact ⟨g, e, v, (MX.viewHas_of_simpleOn g n v.1).randomOK⟩
+  · obtain ⟨g, e, v⟩ := C15.rrt_valid_el s n hn
+    exact ⟨g, e, v, (EL.viewHas_of_simpleOn g n v.1).randomOK⟩
+  · obtain ⟨g, e, v⟩ := C15.er_valid_al s n p hn hp
+    exact ⟨g, e, v, (AL.viewHas_of_simpleOn g n v.1).randomOK⟩
+  · obtain ⟨g, e, v⟩ := C15.er_valid_mx s n p hn hf hp
+    exact ⟨g, e, v, (MX.viewHas_of_simpleOn g n v.1).randomOK⟩
+  · obtain ⟨g, e, v⟩ := C15.er_valid_el s n p hn hp
+    exact ⟨g, e, v, (EL.viewHas_of_simpleOn g n v.1).randomOK⟩
+  · obtain ⟨g, e, v⟩ := C15.er_valid_am st n t p hn ht hp
+    exact ⟨g, e, v, (AM.viewHas_of_simpleOn g n v.1).randomOK⟩
+
+/-- A consequence read off for tournaments: in a tournament every two distinct vertices are
+joined, so BFS from any vertex `s` on `random_tournament` reaches every vertex that has an arc
+from `s` at hop distance 1 — and the relation the theorem speaks about is the tournament's. -/
+theorem random_tournament_bfs (s : Rand.Stream) (n : Nat) (hn : 1 ≤ n) (src : Nat) (hsrc : src < n) :
+    ∃ g, Rand.tournamentAL s n = some g ∧
+      (∀ u v, u < n → v < n → u ≠ v → (g.hasArc u v = true ↔ g.hasArc v u = false)) ∧
+      BfsHolds (hasRel g.hasArc) n [src] g.view := by
+  obtain ⟨g, e, v, ok⟩ := (random_generators_algorithms.1 s n hn).1
+  exact ⟨g, e, v.2, (ok.1 [src] (by intro x hx; simp at hx; omega) (by simp)).bfs⟩
+
+/-! ## 9. Sparse `[am verts arcs]` descriptions -/
+
+/-- The `VGraph` the C09 handler runs the Tarjan model on (`H09.vgraphOf d`: vertices = described
+vertices + arc endpoints, rows for ids `0..max id`) is the vertex-id view of the map built like
+the harness builds the real one — for ANY ascending vertex list and loop-free arcs (ids need not be
+contiguous). -/
+theorem driver_vgraph_is_vview_sparse_am (d : Driver.GDesc) (hrepr : (d.repr == "am") = true)
+    (hverts : d.verts.Pairwise (· < ·)) (hnl : ∀ a ∈ d.arcs, a.1 ≠ a.2) :
+    ∃ r, Driver.buildAM d = some r ∧ r.WF ∧ r.vertices = Driver.H09.vertsOf d ∧
+      (∀ u v, (u, v) ∈ r.arcs ↔ (u, v) ∈ d.arcs) ∧ r.vview = Driver.H09.vgraphOf d :=
+  driver_vgraph_is_vview_am d hrepr hverts hnl
+
+/-- `H09.vgraphSparse` (rows keyed by id in an array sorted by id, found by binary search; used
+when an id is ≥ 4096) builds the SAME `VGraph` as `H09.vgraphOf` (rows indexed by id) — same
+vertex list and, for EVERY id `u` (vertex or not), the same row.  (Binary search is proved to
+find exactly the position of the key: `rankOf_spec`.) -/
+theorem driver_vgraphSparse_eq_vgraphOf (d : Driver.GDesc) (hrepr : (d.repr == "am") = true)
+    (hnl : ∀ a ∈ d.arcs, a.1 ≠ a.2) : Driver.H09.vgraphSparse d = Driver.H09.vgraphOf d :=
+  vgraphSparse_eq_vgraphOf d hrepr hnl
+
+/-- Hence `H09.graphOfDesc d`, whichever construction it picks, is the vertex-id view of the map
+the harness builds. -/
+theorem driver_graphOfDesc_is_vview (d : Driver.GDesc) (hrepr : (d.repr == "am") = true)
+    (hverts : d.verts.Pairwise (· < ·)) (hnl : ∀ a ∈ d.arcs, a.1 ≠ a.2) :
+    ∃ r, Driver.buildAM d = some r ∧ r.WF ∧ r.vview = Driver.H09.graphOfDesc d :=
+  driver_graphOfDesc_is_vview_am d hrepr hverts hnl
+
+/-! ## 10. The preorder clause of C06 over the bare arc relation
+
+`RIsDfsPreorder A S xs anns` (`Proof/ComposeDfs.lean`) is "`xs` is a depth-first preorder (prefix)
+of the digraph `A` from the sources `S`, annotated with the prescribed parents and depths",
+defined inductively over the RELATION `A` (no rows, no Booleans).  It is the reading of
+`Spec/Dfs.lean`: -/
+
+theorem dfs_preorder_relational (g : Graph) (S xs : List Nat) :
+    (∀ anns, Dfs.annotate g S xs = some anns ↔ RIsDfsPreorder g.A S xs anns) ∧
+    (Dfs.ValidDfsPreorder g S xs ↔ ∃ anns, RIsDfsPreorder g.A S xs anns) :=
+  ⟨annotate_iff g S xs, validDfsPreorder_iff g S xs⟩
+
+/-- C06 for every `AdjacencyList`, with NOTHING on the specification side but `(u, v) ∈ arcs()`:
+today's `Dfs` yields a depth-first preorder prefix with the prescribed depths / parents / forest;
+the corrected variant yields exactly the reachable vertices in a depth-first preorder.  (The same
+two fields `dfsTodayR`, `dfsFixedR` are part of every `TraversalsHold` above — all
+representations, after any history, generators, conversions, operations.) -/
+theorem adjList_dfs_relational (d : AdjList) (h : d.WF) (S : List Nat) (hS : ∀ s ∈ S, s < d.order)
+    (hnd : S.Nodup) : DfsPreorderTodayR d.Arc d.order S d.view ∧ DfsFixedHoldsR d.Arc d.order S d.view :=
+  ⟨(adjList_traversals d h S hS hnd).dfsTodayR, (adjList_traversals d h S hS hnd).dfsFixedR⟩
+
+/-! ## 11. Repeated calls on the same algorithm object -/
+
+/-- `tarjan_every_call` on every representation: each call of `components()` on one `Tarjan`
+object returns what the first call returns, the SCC partition w.r.t. `arcs()`. -/
+theorem tarjan_every_call_views :
+    (∀ d : AdjList, d.WF → TarjanEveryCallHolds d.vertices d.Arc d.vview) ∧
+    (∀ d : AdjMap, d.WF → TarjanEveryCallHolds d.vertices d.Arc d.vview) ∧
+    (∀ d : AdjMatrix, d.WF → TarjanEveryCallHolds d.vertices d.Arc d.vview) ∧
+    (∀ d : EdgeList, d.WF → TarjanEveryCallHolds d.vertices d.Arc d.vview) ∧
+    (∀ d : AdjListW, d.WF → TarjanEveryCallHolds d.vertices d.Arc d.vview) :=
+  ⟨fun d h => tarjanEveryCallHolds_of (g := d.vview) (d.vview_spec h).arc_iff (d.vview_spec h).closed,
+   fun d h => tarjanEveryCallHolds_of (g := d.vview) (d.vview_spec h).arc_iff (d.vview_spec h).closed,
+   fun d h => tarjanEveryCallHolds_of (g := d.vview) (d.vview_spec h).arc_iff (d.vview_spec h).closed,
+   fun d h => tarjanEveryCallHolds_of (g := d.vview) (d.vview_spec h).arc_iff (d.vview_spec h).closed,
+   fun d h => tarjanEveryCallHolds_of (g := d.vview) (d.vview_spec h).arc_iff (d.vview_spec h).closed⟩
+
+/-- `johnson_repeat_statement` on the contiguous map. -/
+theorem adjMap_johnson_repeat (d : AdjMap) (h : d.WF) (hc : Gen.AM.Contiguous d) : JohnsonRepeatHolds d.Arc d.view :=
+  (AdjMap.viewIs d h hc).johnsonRepeat
+
+/-- … after any history (generic over the representation model). -/
+theorem tarjan_every_call_after_any_history {σ ο ω : Type} (M : ReprModel σ ο ω) (r : σ) (hr : M.WF r)
+    (ops : List ο) :
+    TarjanEveryCallHolds (M.vview (M.after r ops)).verts (M.specAfter r ops).Arc (M.vview (M.after r ops)) :=
+  M.tarjan_every_call_after_any_history r hr ops
+
+theorem johnson_repeat_after_any_history {σ ο ω : Type} (M : ReprModel σ ο ω) (r : σ) (hr : M.WF r)
+    (ops : List ο) (hok : M.viewOK (M.after r ops)) :
+    JohnsonRepeatHolds (M.specAfter r ops).Arc (M.view (M.after r ops)) :=
+  M.johnson_repeat_after_any_history r hr ops hok
+
+/-- `bfm_repeat_const` and `fw_twice` on the weighted list after any history (they are the fields
+`bfmRepeat`, `fwTwice` of `WeightedHold`, hence also part of `adjListW_weighted`,
+`adjListW_converse_weighted`, `from_rows_views`). -/
+theorem weighted_repeat_after_any_history (d : AdjListW) (h : d.WF) (ops : List (Op Int)) :
+    (∀ s, s < d.order → BfmRepeatHolds s (run AdjListW.step d ops).1.wview) ∧
+    ((∀ x, ¬ RNegCycleAt (run (specStep .fixed) d.abs ops).1.WArc x) →
+      Fw.distances2 (run AdjListW.step d ops).1.wview = Fw.distances (run AdjListW.step d ops).1.wview) :=
+  ⟨(AdjListW.weighted_after_any_history d h ops).bfmRepeat, (AdjListW.weighted_after_any_history d h ops).fwTwice⟩
+
 /-! ## Non-vacuity
 
 A 6-call history on an `AdjacencyMatrix` of order 9 (`order² = 81` bits: two 64-bit blocks;
@@ -622,5 +952,41 @@ example :
         (fun r => (List.range 4).map r.view.out) =
       some ((List.range 4).map (Driver.GDesc.graph ⟨"mx", List.range 4, 4, [(2, 1), (0, 3), (2, 0), (0, 3)], []⟩).out) := by
   decide
+
+/-! ### second round -/
+
+/-- operations: `converse` of the path `0→1→2` plus `2→0`… reverses reachability, same SCC blocks -/
+example : (Ops.converseAL ⟨[[1], [2], [0, 3], []]⟩).map (fun r => (List.range 4).map r.view.out) =
+    some [[2], [0], [1], [2]] := by decide
+example : Tarjan.components (⟨[[1], [2], [0, 3], []]⟩ : AdjList).vview = .ret [[3], [0, 1, 2]] := by decide
+example : (Ops.converseAL ⟨[[1], [2], [0, 3], []]⟩).map (fun r => Tarjan.components r.vview) =
+    some (.ret [[0, 1, 2], [3]]) := by decide
+/-- BFS on the complement of the circuit `0→1→2→3→0` -/
+example : (Ops.complementAL ⟨[[1], [2], [3], [0]]⟩ 3).map (fun r => Bfs.bfsDist r.view [0]) =
+    some (.ok [(0, 0), (2, 1), (3, 1), (1, 2)]) := by decide
+/-- `From<rows>`: the view has the given rows -/
+example : (Conv.AM.fromRows [[2], [0, 2], []]).map (fun r => (List.range 3).map r.view.out) =
+    some [[2], [0, 2], []] := by decide
+/-- a random tournament on 4 vertices from the constant stream `1` (every `next_bool` true), BFS
+and Tarjan on its view -/
+example : (Rand.tournamentAL (fun _ => 1) 4).map (fun g => Bfs.bfsDist g.view [2]) =
+    some (.ok [(2, 0), (3, 1)]) := by decide
+example : (Rand.tournamentAL (fun i => UInt64.ofNat i) 4).map (fun g => Tarjan.components g.vview) =
+    some (.ret [[0, 1, 2, 3]]) := by decide
+/-- the relational preorder predicate on the C06 witness `0→1, 0→2, 0→3, 3→2` -/
+example : RIsDfsPreorder C06.witness.A [0] [0, 3, 2, 1] [(0, none, 0), (3, some 0, 1), (2, some 3, 2), (1, some 0, 1)] :=
+  (annotate_iff C06.witness [0] _ _).1 (by decide)
+example : ¬ ∃ anns, RIsDfsPreorder C06.witness.A [0] [0, 3, 1] anns :=
+  fun h => absurd ((validDfsPreorder_iff C06.witness [0] _).2 h) (by decide)
+/-- the third call of `components()` on the same object, on a view after a history -/
+example : (AdjList.empty 3).map (fun d =>
+    Tarjan.componentsAt (run AdjList.step d [.add 0 1 (), .add 1 0 (), .add 1 2 ()]).1.vview 3) =
+    some (.ret [[2], [0, 1]]) := by decide
+
+/-- a sparse map description with a huge id: both driver constructions, and the model's view -/
+example : (Driver.H09.vgraphSparse ⟨"am", [3, 5000], 2, [(3, 5000), (5000, 3), (3, 7)], []⟩).out 3 = [7, 5000] := by
+  decide
+example : (Driver.buildAM ⟨"am", [3, 5000], 2, [(3, 5000), (5000, 3), (3, 7)], []⟩).map
+    (fun r => (r.vview.verts, r.vview.out 3, r.vview.out 5000)) = some ([3, 7, 5000], [7, 5000], [3]) := by decide
 
 end GraafVerif.Compose
